@@ -16,6 +16,9 @@ import (
 // ErrCrashed is returned by every call after the crash point.
 var ErrCrashed = errors.New("crashed: the process is dead as seen from the store")
 
+// ErrTransient is the error of a single failed store call.
+var ErrTransient = errors.New("transient store failure (injected)")
+
 // Write is one recorded mutating call.
 type Write struct {
 	Store       string
@@ -31,6 +34,9 @@ type Group struct {
 	mu      sync.Mutex
 	CrashAt int  // 1-based index of the mutating call at which to crash; 0 = never
 	Landed  bool // whether that call takes effect
+	// FailOnceAt: the k-th mutating call fails with a transient error and does not land; the
+	// process lives on (no crash). 0 = never.
+	FailOnceAt int
 	count   int
 	dead    bool
 	Writes  []Write
@@ -71,6 +77,11 @@ func (s *Store) mutate(op, key string, noOverwrite bool, do func() error) error 
 	}
 	s.g.count++
 	w := Write{Store: s.name, Op: op, Key: key, NoOverwrite: noOverwrite}
+	if s.g.FailOnceAt != 0 && s.g.count == s.g.FailOnceAt {
+		w.Err = true
+		s.g.Writes = append(s.g.Writes, w)
+		return ErrTransient
+	}
 	if s.g.CrashAt != 0 && s.g.count == s.g.CrashAt {
 		s.g.dead = true
 		if s.g.Landed {
